@@ -404,11 +404,17 @@ def run_ops(W, ops, check, emit_log, model=None, ledger=None, lru=None, faults=N
             elif k == "wmeta":
                 _, fn, x, mk, hexv, with_data = op
                 if W.read_only:
+                    ck = None
+                    if with_data and not is_mem and (fn, x) in model.d:
+                        g = be.get_memento(W.ref(fn, x))
+                        ck = g.content_key if g is not None else None
                     try:
-                        be.write_metadata(W.ref(fn, x), mk, bytes.fromhex(hexv))
+                        be.write_metadata(W.ref(fn, x), mk, bytes.fromhex(hexv), store_with_content_key=ck)
                         bad("ro-metadata-write-accepted", op, {"i": i})
                     except ValueError:
                         obs = "rejected"
+                    if ck is not None:
+                        bump("ro_metadata_with_data_attempts")
                 elif (fn, x) in model.d:
                     ent = model.d[(fn, x)]
                     ck = None
@@ -486,7 +492,7 @@ def run_ops(W, ops, check, emit_log, model=None, ledger=None, lru=None, faults=N
                     elif k == "forget_cluster":
                         forget_cluster("c5")
                     else:
-                        W.fns[op[1]].put_metadata(op[3], b"zz", op[2])
+                        W.fns[op[1]].put_metadata(op[3], b"zz", op[2], store_with_data=bool(op[4]) if len(op) > 4 else False)
                     if W.read_only:
                         bad("ro-" + k + "-accepted", op, {"i": i})
                 except ValueError:
